@@ -39,6 +39,32 @@ let handle kind a =
       Some (fmt_chunks (optimize_chunks (parse_chunks a.(1)) (n_of_dec a.(0))))
   | "addc" ->
       Some (fmt_chunks (List.fold_left add_chunk [] (parse_chunks a.(0))))
+  | "bai" ->
+      (* args: unplaced ("-" | n) ; refs '/'-separated, each  bins|meta|intervals *)
+      let opt s f = if s = "-" then None else Some (f s) in
+      let parse_ref s =
+        match split_on '|' s with
+        | [bins; meta; ivs] ->
+            let bins = if bins = "_" then [] else
+              List.map (fun b -> match split_on '=' b with
+                | [id; cs] -> (n_of_dec id, parse_chunks cs) | _ -> failwith "bin") (split_on ';' bins) in
+            let meta = opt meta (fun m -> match split_on ':' m with
+                | [a; b; c; d] -> { m_beg = n_of_dec a; m_end = n_of_dec b; m_mapped = n_of_dec c; m_unmapped = n_of_dec d }
+                | _ -> failwith "meta") in
+            let ivs = if ivs = "_" then [] else List.map n_of_dec (split_on ',' ivs) in
+            { br_bins = bins; br_meta = meta; br_intervals = ivs }
+        | _ -> failwith "ref" in
+      let refs = if a.(1) = "_" then [] else List.map parse_ref (split_on '/' a.(1)) in
+      let idx = { bi_refs = refs; bi_unplaced = opt a.(0) n_of_dec } in
+      let bytes = w_bai idx in
+      let back = match read_bai bytes with Some i when i = idx -> "same" | Some _ -> "different" | None -> "Err" in
+      Some (hex_of_bytes bytes ^ " " ^ back)
+  | "gzi" ->
+      let idx = parse_chunks a.(0) in
+      let bytes = w_gzi idx in
+      let back = match read_gzi bytes with Some i when i = idx -> "same" | Some _ -> "different" | None -> "Err" in
+      let trailing = match read_gzi (bytes @ [n_of_int 0]) with Some _ -> "accepted" | None -> "Err" in
+      Some (hex_of_bytes bytes ^ " " ^ back ^ " " ^ trailing)
   | _ -> None
 
 let () = run_driver handle
